@@ -361,7 +361,8 @@ class Walker:
                 continue
             if k == "assert":
                 st["events"].append(("assert", t["msg"], tuple(self.operand(st, o) for o in t["mops"]),
-                                     self.operand(st, t["cond"]), t["expected"], bi, loc_of(t["at"])))
+                                     self.operand(st, t["cond"]), t["expected"], bi, loc_of(t["at"]), len(st["atoms"]),
+                                     tuple(mac_of(t["at"]))))
                 bi = t["t"]
                 continue
             if k == "yield":
